@@ -190,6 +190,10 @@ pub struct World {
     hostile_after: usize,
     /// rare long histories: hundreds of requests, so that ids / counters grow large
     pub long_history: bool,
+    /// life after an error (see World F): 0 = no call failed yet, 1 = the run went on after a
+    /// failed handle_input and nothing has succeeded since, 2 = a later call succeeded
+    post_err: u8,
+    deferred: Option<Violation>,
 }
 
 fn viol(ctx: &Ctx, class: &str, msg: String) -> Violation {
@@ -412,7 +416,18 @@ impl World {
                 let obj = Self::metadata_object(ctx);
                 (msg::data(sid, ts, &[AV::s("@setDataFrame"), AV::s("onMetaData"), obj]), 4)
             }
-            9 => (msg::user_control(ts, 6, ctx.ch.draw("op.arg.pingts", 1 << 32) as u32, None), 2),
+            9 => {
+                // "every ping request": also one that arrives on another message stream than 0
+                // (user control messages SHOULD use stream 0, peers are not obliged to)
+                let mut m = msg::user_control(ts, 6, ctx.ch.draw("op.arg.pingts", 1 << 32) as u32, None);
+                if ctx.ch.chance("op.arg.pingsid", 1, 5) {
+                    m.msid = self.pick_sid(ctx);
+                    if m.msid != 0 {
+                        ctx.probe("peer.ping_on_nonzero_stream");
+                    }
+                }
+                (m, 2)
+            }
             10 => {
                 let name = *ctx.ch.pick("op.arg.cmd", &["releaseStream", "FCPublish", "FCUnpublish", "getStreamLength", "foo"]);
                 (msg::command(0, ts, name, ctx.ch.draw("op.arg.tx", 9) as f64, AV::Null, vec![AV::s("key")]), 3)
@@ -533,6 +548,7 @@ impl World {
                 if !self.model_alive {
                     return Ok(());
                 }
+                self.alive_after_error(ctx)?;
                 let inputs: Vec<SIn> = out.in_msgs.iter().map(|(m, _)| classify(m)).collect();
                 let mut outs = match tracked(&out) {
                     Some(o) => o,
@@ -572,13 +588,65 @@ impl World {
         let last_in: Vec<SIn> = self.srv.c.last_in.iter().map(classify).collect();
         let permitted = last_in.iter().any(|i| i.err_permitted());
         if !permitted {
-            return Err(viol(
+            let v = viol(
                 ctx,
                 "unexpected-session-error",
                 format!("handle_input returned Err({}) although every message in the call is well-formed: {:?}", err, last_in.iter().map(|i| i.kind()).collect::<Vec<_>>()),
-            ));
+            );
+            if self.post_err != 1 {
+                return Err(v);
+            }
+            if self.deferred.is_none() {
+                self.deferred = Some(v);
+            }
+        }
+        // Life after an error: the statement does not make an error terminal, and a message the
+        // session gave up on must not have moved anything ("refused without side effects" is
+        // the rule for everything that is refused).  Go on when the failing call completed
+        // exactly one message, nothing else is buffered and no acknowledgement can have been
+        // serialized and lost with the discarded results.  The model does not move.
+        let single = last_in.len() == 1 && self.srv.c.in_tap_clean() && !self.srv.c.peer_window_seen;
+        let class_ok = single
+            && (self.post_err == 1
+                || matches!(
+                    last_in[0],
+                    SIn::Connect { app: None, .. } | SIn::Publish { .. } | SIn::Play { .. } | SIn::Close { sid: None } | SIn::Delete { sid: None } | SIn::Meta { meta: None, .. }
+                ));
+        if class_ok && ctx.ch.chance("op.arg.goon", 1, 2) {
+            self.srv.c.closed = false;
+            self.srv.c.check_ack = false;
+            if self.post_err == 0 {
+                self.post_err = 1;
+            }
+            ctx.probe("e.continued_after_error");
         }
         Ok(())
+    }
+
+    fn alive_after_error(&mut self, ctx: &mut Ctx) -> RunResult {
+        if self.post_err == 1 {
+            self.post_err = 2;
+            ctx.probe("e.alive_after_error");
+            if let Some(v) = self.deferred.take() {
+                if self.mode == EMode::C09 {
+                    return Err(v);
+                }
+                self.model_alive = false;
+            }
+        }
+        Ok(())
+    }
+
+    /// A refusal while nothing has succeeded since the first error is reported only once the
+    /// session has shown that it is alive.
+    fn fail_or_defer(&mut self, ctx: &mut Ctx, ok: bool, class: String, msg: String) -> RunResult {
+        if !ok && self.post_err == 1 {
+            if self.deferred.is_none() {
+                self.deferred = Some(viol(ctx, &class, msg));
+            }
+            return Ok(());
+        }
+        self.model_fail(ctx, class, msg)
     }
 }
 
@@ -626,13 +694,19 @@ impl World {
                         return Ok(());
                     }
                 };
+                if ok {
+                    self.alive_after_error(ctx)?;
+                    if !self.model_alive {
+                        return Ok(());
+                    }
+                }
                 match self.model.accept(id, ok, &outs) {
                     Ok(m2) => {
                         self.model = m2;
                         ctx.state(self.model.state_hash());
                         Ok(())
                     }
-                    Err((class, msg)) => self.model_fail(ctx, class.to_string(), msg),
+                    Err((class, msg)) => self.fail_or_defer(ctx, ok, class.to_string(), msg),
                 }
             }
             1 | 3 => {
@@ -661,12 +735,18 @@ impl World {
                         return Ok(());
                     }
                 };
+                if ok {
+                    self.alive_after_error(ctx)?;
+                    if !self.model_alive {
+                        return Ok(());
+                    }
+                }
                 match self.model.reject(id, ok, &outs) {
                     Ok(m2) => {
                         self.model = m2;
                         Ok(())
                     }
-                    Err((class, msg)) => self.model_fail(ctx, class.to_string(), msg),
+                    Err((class, msg)) => self.fail_or_defer(ctx, ok, class.to_string(), msg),
                 }
             }
             4 => {
@@ -780,6 +860,8 @@ pub fn build(ctx: &mut Ctx, mode: EMode) -> Result<World, Violation> {
         history: Vec::new(),
         hostile_after: 0,
         long_history: false,
+        post_err: 0,
+        deferred: None,
     })
 }
 
